@@ -29,4 +29,162 @@ theorem grapheme_restart (pre : List Nat) (x : Nat) (suf : List Nat) (hpre : pre
     runV trG (some (trG none x suf).1) suf = runV trG (some (trG (stateAfter trG none pre (x :: suf)) x suf).1) suf :=
   C11.grapheme_restart pre x suf hpre (C01U.lettersOK _ hcp) hb
 
+
+/-! ## both halves, every text of code points: verdicts and segments compose at a reported boundary -/
+
+theorem word_verdicts_compose (pre : List Nat) (y : Nat) (ys : List Nat) (hpre : pre ≠ []) (hcp : CodePoints (pre ++ y :: ys))
+    (hb : ((runV transitionWordBreakState none (pre ++ y :: ys)).map (·.2))[pre.length]? = some true) :
+    ((runV transitionWordBreakState none (pre ++ y :: ys)).map (·.2)).tail =
+      ((runV transitionWordBreakState none pre).map (·.2)).tail ++ true :: ((runV transitionWordBreakState none (y :: ys)).map (·.2)).tail :=
+  C11.verdicts_compose algW wbL transitionWordBreakState Cert.Word.cert Cert.Word.valid Cert.WordCut.cert Cert.WordCut.valid
+    (transW_factor C02.fffd_inert) pre y ys hpre (C02U.lettersOK _ hcp) (by rw [C11.cut_letters.2.1]; exact C02U.lettersOK _ hcp) true hb rfl
+
+theorem sentence_verdicts_compose (pre : List Nat) (y : Nat) (ys : List Nat) (hpre : pre ≠ []) (hcp : CodePoints (pre ++ y :: ys))
+    (hb : ((runV transitionSentenceBreakState none (pre ++ y :: ys)).map (·.2))[pre.length]? = some true) :
+    ((runV transitionSentenceBreakState none (pre ++ y :: ys)).map (·.2)).tail =
+      ((runV transitionSentenceBreakState none pre).map (·.2)).tail ++ true :: ((runV transitionSentenceBreakState none (y :: ys)).map (·.2)).tail :=
+  C11.verdicts_compose algS sbL transitionSentenceBreakState Cert.Sentence.cert Cert.Sentence.valid Cert.SentenceCut.cert Cert.SentenceCut.valid
+    transS_factor pre y ys hpre (C03U.lettersOK _ hcp) (by rw [C11.cut_letters.2.2.1]; exact C03U.lettersOK _ hcp) true hb rfl
+
+theorem line_verdicts_compose (pre : List Nat) (y : Nat) (ys : List Nat) (hpre : pre ≠ []) (hcp : CodePoints (pre ++ y :: ys))
+    (v : LB.V) (hv : ((runV trL none (pre ++ y :: ys)).map (·.2))[pre.length]? = some v) (hb : (v != LB.V.no) = true) :
+    ((runV trL none (pre ++ y :: ys)).map (·.2)).tail =
+      ((runV trL none pre).map (·.2)).tail ++ v :: ((runV trL none (y :: ys)).map (·.2)).tail :=
+  C11.verdicts_compose algL lbIn trL Cert.Line.cert Cert.Line.valid Cert.LineCut.cert Cert.LineCut.valid
+    transL_factor pre y ys hpre (C04U.lettersOK _ hcp) (by rw [C11.cut_letters.2.2.2]; exact C04U.lettersOK _ hcp) v hv hb
+
+theorem grapheme_verdicts_compose (pre : List Nat) (y : Nat) (ys : List Nat) (hpre : pre ≠ []) (hcp : CodePoints (pre ++ y :: ys))
+    (hb : ((runV trG none (pre ++ y :: ys)).map (·.2))[pre.length]? = some true) :
+    ((runV trG none (pre ++ y :: ys)).map (·.2)).tail =
+      ((runV trG none pre).map (·.2)).tail ++ true :: ((runV trG none (y :: ys)).map (·.2)).tail :=
+  C11.verdicts_compose algG gbLetter trG Cert.Grapheme.cert Cert.Grapheme.valid Cert.GraphemeCut.cert Cert.GraphemeCut.valid
+    (fun _ _ _ => rfl) pre y ys hpre (C01U.lettersOK _ hcp) (by rw [C11.cut_letters.1]; exact C01U.lettersOK _ hcp) true hb rfl
+
+/-- the code points of a decoded text -/
+theorem runeVals_codepoints (b : List Nat) : CodePoints (runeVals (Utf8.runesOf b)) := decoded_codepoints b
+
+/-- **C11 for words, segment level**: if the run over the decoded text reports a word boundary
+between `rp` and `ry :: rs`, the chain of `FirstWord` calls on the whole text yields the segments of
+the chain on `rp`, then those of the chain on `ry :: rs` -/
+theorem word_segments_compose (rp : List Rune) (ry : Rune) (rs : List Rune) (hrp : rp ≠ [])
+    (hcp : CodePoints (runeVals rp ++ ry.1 :: runeVals rs))
+    (hb : ((runV transitionWordBreakState none (runeVals rp ++ ry.1 :: runeVals rs)).map (·.2))[(runeVals rp).length]? = some true) :
+    (chain firstWordR (rp ++ ry :: rs) none).map (fun x => (x.1, x.2.1)) =
+      C11.setEnd true ((chain firstWordR rp none).map (fun x => (x.1, x.2.1))) ++ (chain firstWordR (ry :: rs) none).map (fun x => (x.1, x.2.1)) := by
+  have hne : runeVals rp ≠ [] := by
+    cases rp with
+    | nil => exact absurd rfl hrp
+    | cons _ _ => simp [runeVals]
+  apply C11.chain_compose transitionWordBreakState id (fun rs => (chain firstWordR rs none).map (fun x => (x.1, x.2.1)))
+    (fun rs => by
+      have := chain_cuts transitionWordBreakState id wbAny rs
+      unfold firstWordR
+      rw [this]
+      cases rs with
+      | nil => rfl
+      | cons _ _ => simp only [List.map_tail])
+    rp ry rs hrp true rfl
+  exact word_verdicts_compose (runeVals rp) ry.1 (runeVals rs) hne hcp hb
+
+theorem sentence_segments_compose (rp : List Rune) (ry : Rune) (rs : List Rune) (hrp : rp ≠ [])
+    (hcp : CodePoints (runeVals rp ++ ry.1 :: runeVals rs))
+    (hb : ((runV transitionSentenceBreakState none (runeVals rp ++ ry.1 :: runeVals rs)).map (·.2))[(runeVals rp).length]? = some true) :
+    (chain firstSentenceR (rp ++ ry :: rs) none).map (fun x => (x.1, x.2.1)) =
+      C11.setEnd true ((chain firstSentenceR rp none).map (fun x => (x.1, x.2.1))) ++ (chain firstSentenceR (ry :: rs) none).map (fun x => (x.1, x.2.1)) := by
+  have hne : runeVals rp ≠ [] := by
+    cases rp with
+    | nil => exact absurd rfl hrp
+    | cons _ _ => simp [runeVals]
+  apply C11.chain_compose transitionSentenceBreakState id (fun rs => (chain firstSentenceR rs none).map (fun x => (x.1, x.2.1)))
+    (fun rs => by
+      have := chain_cuts transitionSentenceBreakState id sbAny rs
+      unfold firstSentenceR
+      rw [this]
+      cases rs with
+      | nil => rfl
+      | cons _ _ => simp only [List.map_tail])
+    rp ry rs hrp true rfl
+  exact sentence_verdicts_compose (runeVals rp) ry.1 (runeVals rs) hne hcp hb
+
+
+/-- the line chain as cuts of the `trL` run (three-valued verdicts) -/
+theorem line_chain_cuts (rs : List Rune) :
+    (chain firstLineR rs none).map (fun x => (x.1, x.2.1.map lvOfNat)) =
+      match rs with
+      | [] => []
+      | _ :: _ => cutsV (fun v => v != LB.V.no) ((runV trL none (runeVals rs)).map (·.2)).tail 1 := by
+  have h := chain_cuts transitionLineBreakState (fun v => v != LineDontBreak) lbAny rs
+  have h2 := congrArg (List.map (fun (x : Nat × Option Nat) => (x.1, x.2.map lvOfNat))) h
+  simp only [List.map_map] at h2
+  unfold firstLineR
+  refine Eq.trans ?_ (Eq.trans h2 ?_)
+  · rfl
+  · cases rs with
+    | nil => rfl
+    | cons r rest =>
+      simp only
+      rw [cutsV_map (fun v => v != LineDontBreak) (fun v => v != LB.V.no) lvOfNat C04.isB_lv]
+      have := runV_map transitionLineBreakState lvOfNat none (runeVals (r :: rest))
+      unfold trL
+      rw [this, List.map_tail, List.map_tail, List.map_map, List.map_map]
+      rfl
+
+/-- **C11 for lines, segment level** (lengths and the ×/÷/! verdict ending each segment) -/
+theorem line_segments_compose (rp : List Rune) (ry : Rune) (rs : List Rune) (hrp : rp ≠ [])
+    (hcp : CodePoints (runeVals rp ++ ry.1 :: runeVals rs)) (v : LB.V)
+    (hv : ((runV trL none (runeVals rp ++ ry.1 :: runeVals rs)).map (·.2))[(runeVals rp).length]? = some v) (hb : (v != LB.V.no) = true) :
+    (chain firstLineR (rp ++ ry :: rs) none).map (fun x => (x.1, x.2.1.map lvOfNat)) =
+      C11.setEnd v ((chain firstLineR rp none).map (fun x => (x.1, x.2.1.map lvOfNat))) ++
+        (chain firstLineR (ry :: rs) none).map (fun x => (x.1, x.2.1.map lvOfNat)) := by
+  have hne : runeVals rp ≠ [] := by
+    cases rp with
+    | nil => exact absurd rfl hrp
+    | cons _ _ => simp [runeVals]
+  apply C11.chain_compose trL (fun v => v != LB.V.no) (fun rs => (chain firstLineR rs none).map (fun x => (x.1, x.2.1.map lvOfNat)))
+    line_chain_cuts rp ry rs hrp v hb
+  exact line_verdicts_compose (runeVals rp) ry.1 (runeVals rs) hne hcp v hv hb
+
+
+theorem setEnd_lengths {V : Type} (v : V) : ∀ (l : List (Nat × Option V)), (C11.setEnd v l).map (·.1) = l.map (·.1) := by
+  intro l
+  induction l with
+  | nil => rfl
+  | cons a as ih =>
+    cases as with
+    | nil => rfl
+    | cons b bs => simp only [C11.setEnd, List.map_cons] at ih ⊢; rw [ih]
+
+/-- **C11 for grapheme clusters, segment level** (cluster lengths in code points; the width of a
+cluster is a function of its code points, C06): for every ambiguous-width setting -/
+theorem grapheme_segments_compose (amb : Nat) (rp : List Rune) (ry : Rune) (rs : List Rune) (hrp : rp ≠ [])
+    (hcp : CodePoints (runeVals rp ++ ry.1 :: runeVals rs))
+    (hb : ((runV trG none (runeVals rp ++ ry.1 :: runeVals rs)).map (·.2))[(runeVals rp).length]? = some true) :
+    (chain (firstGraphemeClusterR amb) (rp ++ ry :: rs) none).map (·.1) =
+      (chain (firstGraphemeClusterR amb) rp none).map (·.1) ++ (chain (firstGraphemeClusterR amb) (ry :: rs) none).map (·.1) := by
+  have hne : runeVals rp ≠ [] := by
+    cases rp with
+    | nil => exact absurd rfl hrp
+    | cons _ _ => simp [runeVals]
+  have hcuts : ∀ rs : List Rune, (chain (firstGraphemeClusterR amb) rs none).map (·.1) =
+      (match rs with
+       | [] => []
+       | _ :: _ => cutsV id ((runV trG none (runeVals rs)).map (fun (t : Nat × Bool) => t.2)).tail 1).map (fun (x : Nat × Option Bool) => x.1) := by
+    intro rs
+    rw [gen_chain ChainG.trGm id (firstGraphemeClusterR amb) ChainG.decG _ _ (ChainG.fg_isFirstCut amb)]
+    cases rs with
+    | nil => rfl
+    | cons r rest =>
+      simp only [cuts]
+      rw [C01.runV_mask _ none (by intro s h; cases h), List.map_tail]
+  have hcomp := grapheme_verdicts_compose (runeVals rp) ry.1 (runeVals rs) hne hcp hb
+  rw [hcuts (rp ++ ry :: rs), hcuts rp, hcuts (ry :: rs)]
+  cases rp with
+  | nil => exact absurd rfl hrp
+  | cons r0 rp' =>
+    have e1 : runeVals (r0 :: rp' ++ ry :: rs) = runeVals (r0 :: rp') ++ ry.1 :: runeVals rs := by
+      simp [runeVals]
+    have e2 : runeVals (ry :: rs) = ry.1 :: runeVals rs := by simp [runeVals]
+    simp only [List.cons_append]
+    rw [← List.cons_append, e1, e2, hcomp, C11.cutsV_compose id true rfl, List.map_append, setEnd_lengths]
+
 end Uniseg.Properties.C11U
